@@ -23,6 +23,7 @@ def run(prog, chk):
         "otRound (halves up) is the only integeriser of advance widths / heights / charstring widths; roundTolerance reaches the charstring pen; builtin round/int/floor/ceil only at reviewed sites (R01.3)",
         "a negative advance raises before anything is stored (R01.4)",
         "each glyph is drawn exactly once, directly into its charstring pen, in glyph-order (R01.5)",
+        "glyph geometry is not rounded inside the pre-processing filters or the decomposition helper: coordinates are rounded once, when written (R01.6)",
     ]
     chk.not_decided += ["that drawn coordinates equal the source (fontTools pens)", "composition of nested transforms", "semantics of roundTolerance inside T2CharStringPen"]
     r011(prog, chk)
@@ -30,6 +31,7 @@ def run(prog, chk):
     r013(prog, chk)
     r014(prog, chk)
     r015(prog, chk)
+    r016(prog, chk)
 
 
 # ----------------------------------------------------------------------------- R01.1
@@ -244,7 +246,45 @@ def r015(prog, chk):
     chk.minimum("R01.5", 2)
 
 
+# ----------------------------------------------------------------------------- R01.6
+REVIEWED_ROUND_IN_FILTERS = {
+    "TransformationsFilter.get_origin_height": "rounds half of a font-level metric that becomes the origin of the transformation, not a coordinate of a glyph",
+    "DottedCircleFilter.check_and_add_anchors": "anchors that the filter itself adds to the dotted-circle glyph (averages of other glyphs' anchors; no source counterpart; anchors are not outline coordinates)",
+}
+
+
+def r016(prog, chk):
+    """Coordinates are rounded once, where they are written into the font: nothing in the
+    pre-processing filters (or in the decomposition helper) rounds glyph geometry - an
+    earlier rounding of offsets or points makes the result differ from rounding the fully
+    transformed coordinate, and ignores roundTolerance."""
+    n = 0
+    for fi in prog.ix.functions.values():
+        if not (fi.module.name.startswith("ufo2ft.filters") or fi.short in ("decomposeCompositeGlyph", "_copyGlyph")):
+            continue
+        for c in A.body_nodes(fi.node):
+            if not isinstance(c, ast.Call):
+                continue
+            name = A.callee_name(c)
+            if not (is_otround(prog, fi, c) or name in ("otRound", "otRoundIgnoringVariable", "quantize") or (name == "round" and isinstance(c.func, ast.Attribute))):
+                continue
+            n += 1
+            owner = fi.short
+            ok = owner in REVIEWED_ROUND_IN_FILTERS
+            if ok:
+                chk.exempt("R01.6", f"{owner}|{A.keytext(fi.node, c)}", REVIEWED_ROUND_IN_FILTERS[owner])
+            chk.ob("R01.6", f"{owner}|{A.keytext(fi.node, c)}", ok, where(fi, c), detail=REVIEWED_ROUND_IN_FILTERS.get(owner, ""),
+                   message=f"{owner} rounds geometry inside the pre-processing stage (`{T(c, 50)}`): coordinates must stay exact until they are written "
+                           f"(rounded once, after the full transformation, honouring roundTolerance)")
+    chk.ob("R01.6", "no rounding of glyph geometry in the filters / decomposition helper outside the reviewed sites", True, "", detail=f"{n} rounding call(s) examined", nontrivial=False)
+    chk.minimum("R01.6", 3)
+
+
 MUTANTS = [
+    M("component offsets snapped to the grid before decomposition (seeded C01c)", "ufo2ft/filters/decomposeComponents.py", "DecomposeComponentsFilter.filter",
+      "decomposeCompositeGlyph(glyph, self.context.glyphSet)",
+      "for component in glyph.components:\n    t = component.transformation\n    component.transformation = (t[0], t[1], t[2], t[3], otRound(t[4]), otRound(t[5]))\ndecomposeCompositeGlyph(glyph, self.context.glyphSet)", rule="R01.6"),
+    M("copied glyphs get rounded advance", "ufo2ft/util.py", "_copyGlyph", "copy.width = glyph.width", "copy.width = otRound(glyph.width)", rule="R01.6"),
     M("OTF pre-processor only decomposes mixed glyphs", "ufo2ft/preProcessor.py", "OTFPreProcessor.initDefaultFilters",
       "DecomposeComponentsFilter()", "DecomposeComponentsFilter(include=lambda g: len(g))", rule="R01.1"),
     M("interpolatable OTF pre-processor skips decomposition when there are colour layers", "ufo2ft/preProcessor.py", "OTFInterpolatablePreProcessor.initDefaultFilters",
